@@ -11,7 +11,7 @@ import gen as G             # noqa: E402
 import pylite_io as P       # noqa: E402
 
 PROP = "C09"
-DEPS = ["Gen/Converter.v", "Model/PyLite.v", "Proofs/PyLiteLemmas.v", "Proofs/ConverterThm.v"]
+DEPS = ["Gen/Converter.v", "Model/PyLite.v", "Proofs/PyLiteLemmas.v", "Proofs/ConverterThm.v", "Proofs/ConverterSinks.v", "Proofs/CliThm.v"]
 
 
 def make_cases(r, n, maxlen):
@@ -68,10 +68,12 @@ def spec_check(report, case, res, idx):
                     if g[1] != e[1]:
                         problems.append(f"pair {k}: SMILES differs from the conversion of this input on its own")
                         break
+    if res.get("caller_list_unchanged") is False:
+        problems.append("caller list modified: the glycan_list object handed in was changed by the call")
     if problems:
         p0 = problems[0]
         kind = ("raised" if p0.startswith("raised") else "pair-count" if "pairs for" in p0 else
-                "echo" if "echoed" in p0 else "smiles" if "SMILES differs" in p0 else "none-vs-inputs")
+                "caller-list" if "caller list" in p0 else "echo" if "echoed" in p0 else "smiles" if "SMILES differs" in p0 else "none-vs-inputs")
         report.fail({"site": "converter", "kind": kind},
                     {"case": case, "observed": {k: res[k] for k in ("pairs", "exc")}, "expected": exp,
                      "problems": problems,
